@@ -81,6 +81,13 @@ impl<T> MpscReceiver<T> {
             r is Err ==> recv_post(old(self).q(), old(w), final(w), &Poll::<Option<T>>::Pending)
     { unimplemented!() }
 }
+impl<T> MpscReceiver<T> {
+    // Receiver::close: closes the receiving half for good (senders are refused from then on); what is queued can still be received
+    #[verifier::external_body]
+    pub fn close(&mut self, Tracked(w): Tracked<&mut World>)
+        ensures final(self).q() == old(self).q(), *final(w) == (World { closed: old(w).closed.insert(old(self).q()), ..*old(w) })
+    { unimplemented!() }
+}
 #[verifier::external_body] pub struct TaskCx { x: u8 }          // core::task::Context<'_>
 pub enum Poll<T> { Ready(T), Pending }                          // core::task::Poll
 // what one poll of the receiving closure may do: pop the head and hand it out, report the end, or nothing at all
@@ -91,6 +98,8 @@ pub open spec fn recv_post<T>(q: int, pre: &World, post: &World, r: &Poll<Option
         Poll::Ready(None) => post.trace == pre.trace.push(Ev::PopEnd { chan: q }),
         Poll::Pending => post.trace == pre.trace,
     }
+    // only the receiving half can close its queue, and the caller of a poll holds it: a poll does not change whether the queue is closed
+    &&& post.closed.contains(q) == pre.closed.contains(q)
 }
 #[verifier::external_body]
 pub fn mpsc_channel<T>(buffer: usize) -> (r: (MpscSender<T>, MpscReceiver<T>))
